@@ -21,6 +21,15 @@ reaching its end time or at a logical step cap raised from a coupling observer -
   c20.diff_state          diffusion: current time (value), profile, recorded profiles and recorded times bit-identical;
                           with recording off the recorded arrays of the loaded model are None (or a saved None)
 
+Recording-option histories ("whatever the recording options ... or point between solve calls"): besides recording on / off for
+the whole run, cases switch the public recording toggles between solve calls and save afterwards - recorded -> disableRecording
+-> solved further -> saved; recorded -> disabled -> saved without another solve; not recorded -> enableRecording -> solved ->
+saved; (diffusion only) recorded -> removeRecordedData -> saved.  Every recorded history that exists on the saved model must be
+reproduced by the loaded one; None against an array is a difference in either direction.  The mech keys history / flag / arrays
+name the history and the state of the switches at the save point.  Precipitation: setPSDrecording toggles; a population balance
+that is recording must reproduce its recorded-PSD file; one that was switched off keeps its arrays but saveRecordedPSD is
+documented to "do nothing" then (counted: recorded_psd_kept_but_not_written_while_disabled, nothing to compare).
+
 Surrogates (case kind 'surrogate'; BinarySurrogate on Al-Zr, MulticomponentSurrogate on Ni-Al-Cr, MulticomponentSurrogate with
 two precipitate phases on Al-Mg-Si, GeneralSurrogate on Fe-Cr-Ni whose two phases FCC_A1 / BCC_A2 both carry mobility data).
 Every getter that takes a phase / precPhase argument is exercised with the argument left out AND with every admissible explicit
@@ -86,7 +95,8 @@ from vlib.core import StopRun
 PROPERTY = 'C20'
 LEVEL = 'exploration'
 RULE = ('precipitation configurations from the shared generator {binary Al-Zr, ternary Ni-Al-Cr, 2-3 phase Al-Mg-Si} x PSD recording on/off x '
-        '{Euler, RK4} x 1-3 solve calls (each ended by its end time or a step cap, <=150 steps in total) x file name with/without .npz; '
+        '{Euler, RK4} x 1-3 solve calls (each ended by its end time or a step cap, <=150 steps in total) x file name with/without .npz x '
+        'recording history {unchanged, on->off->solve, on->off->save, off->on->solve, (diffusion) removed before save}; '
         'diffusion configurations {single phase, homogenization x 5 rules} x {Ni-Cr, Ni-Cr-Al, Fe-Cr-Ni} x recording on/off x 1-3 calls, 8-24 nodes; '
         'surrogate cases {binary Al-Zr, multicomponent Ni-Al-Cr, two-precipitate Al-Mg-Si, two-phase Fe-Cr-Ni} x {linear, log} x {broadcast grid, '
         'paired points} x kernel x grid sizes (<=40 points) x trained phases {first, second, both} x phase argument {left out, every explicit value}. '
@@ -209,16 +219,41 @@ KERNELS = [{'kernel': 'cubic', 'normalize': True}, {'kernel': 'cubic', 'normaliz
            {'kernel': 'linear', 'normalize': True}, {'kernel': 'thin_plate_spline', 'normalize': True}]
 
 
+RECORD_HISTORIES = ['none', 'none', 'on_off_solve', 'on_off_save', 'off_on_solve', 'on_off_solve', 'off_on_solve', 'removed_before_save']
+
+
+def _record_history(rng, name, nc):
+    """recording-option history of one case -> (initial flag or None = keep the deck value, number of calls, per call [action before
+    the solve call, action after it (before the save point)]); actions: 'on' / 'off' / 'remove'"""
+    if name in ('on_off_solve', 'off_on_solve'):
+        nc = max(nc, 2)
+    tog = [[None, None] for _ in range(nc)]
+    if name == 'none':
+        return None, nc, tog
+    if name == 'on_off_solve':        # recorded, switched off between two solve calls, solved further
+        tog[int(rng.integers(1, nc))][0] = 'off'
+        return True, nc, tog
+    if name == 'on_off_save':         # recorded, switched off after a solve call, saved without solving further
+        tog[int(rng.integers(0, nc))][1] = 'off'
+        return True, nc, tog
+    if name == 'off_on_solve':        # not recorded at first, switched on between two solve calls
+        tog[int(rng.integers(1, nc))][0] = 'on'
+        return False, nc, tog
+    tog[nc - 1][1] = 'remove'         # 'removed_before_save': recorded data removed by the user before the last save point
+    return True, nc, tog
+
+
 def _plan_precip(rng, n, tier):
     D = {'system': _deck(rng, ['alzr', 'nialcr', 'almgsi'], n), 'record': _deck(rng, [True, False], n),
          'iterator': _deck(rng, ['euler', 'euler', 'rk4'], n), 'ncalls': _deck(rng, [1, 2, 3, 3, 2], n),
-         'ext': _deck(rng, [True, False], n)}
+         'ext': _deck(rng, [True, False], n), 'hist': _deck(rng, RECORD_HISTORIES[:7], n)}
     cases = []
     for i in range(n):
         system, it = D['system'][i], D['iterator'][i]
         cfg = precip_gen.gen_config(rng, system=system, tier=tier, allow_noniso=(system != 'alzr'), grid_class='in_range',
                                     sites=['bulk', 'dislocations', 'dislocations', 'grain boundaries'], iterator=it, max_steps=150)
-        cfg['recordPSD'] = bool(D['record'][i])
+        flag, nc, toggles = _record_history(rng, D['hist'][i], D['ncalls'][i])
+        cfg['recordPSD'] = bool(D['record'][i]) if flag is None else flag
         cons = dict(cfg.get('constraints') or {})
         cons['dtScale'] = 0.3
         cfg['constraints'] = cons
@@ -236,7 +271,6 @@ def _plan_precip(rng, n, tier):
                 arf[p] = {'a': float(s['ar']), 'b': float(rng.uniform(0.05, 0.3) * 1e9)}
         cfg['ar_func'] = arf
         total = 150 if it == 'euler' else 80
-        nc = D['ncalls'][i]
         w = rng.dirichlet(np.ones(nc) * 4.0)
         calls = []
         for j in range(nc):
@@ -251,7 +285,7 @@ def _plan_precip(rng, n, tier):
         for e in cfg['solutes']:
             if rng.random() < 0.7:
                 ssw[e] = float(_loguniform(rng, 1e6, 1e9))
-        cases.append({'kind': 'precip', 'cfg': cfg, 'calls': calls, 'ext': bool(D['ext'][i]), 'ssweights': ssw,
+        cases.append({'kind': 'precip', 'cfg': cfg, 'calls': calls, 'history': D['hist'][i], 'toggles': toggles, 'ext': bool(D['ext'][i]), 'ssweights': ssw,
                       'ssexp': float(rng.choice([1.0, 2.0 / 3.0])), 'probe_continue': bool(rng.random() < 0.25),
                       'weight': (1.0 if it == 'euler' else 2.0) * (1.5 if system == 'almgsi' else 1.0) * 6.0})
     return cases
@@ -260,7 +294,8 @@ def _plan_precip(rng, n, tier):
 def _plan_diffusion(rng, n, tier):
     D = {'model': _deck(rng, ['single', 'homog'], n), 'system': _deck(rng, ['NiCr', 'NiCrAl', 'FeCrNi'], n),
          'record': _deck(rng, [True, False], n), 'ncalls': _deck(rng, [1, 2, 3], n),
-         'iterator': _deck(rng, ['euler', 'rk4'], n), 'hfunc': _deck(rng, HFUNCS, n), 'ext': _deck(rng, [True, False], n)}
+         'iterator': _deck(rng, ['euler', 'rk4'], n), 'hfunc': _deck(rng, HFUNCS, n), 'ext': _deck(rng, [True, False], n),
+         'hist': _deck(rng, RECORD_HISTORIES, n)}
     cases = []
     for i in range(n):
         model, system = D['model'][i], D['system'][i]
@@ -285,10 +320,10 @@ def _plan_diffusion(rng, n, tier):
             T = {'kind': 'array', 'frac': [0.0, float(rng.uniform(0.3, 1.2))], 'temps': [T0, float(T0 + rng.uniform(-50, 50))]}
         else:
             T = {'kind': 'const', 'T': T0}
-        nc = D['ncalls'][i]
+        flag, nc, toggles = _record_history(rng, D['hist'][i], D['ncalls'][i])
         it = D['iterator'][i]
         c = {'kind': 'diffusion', 'model': model, 'system': system, 'N': N, 'zlim': [-0.5 * L, 0.5 * L], 'profiles': prof, 'bc': bc,
-             'T': T, 'record': bool(D['record'][i]), 'iterator': it, 'ext': bool(D['ext'][i]),
+             'T': T, 'record': bool(D['record'][i]) if flag is None else flag, 'history': D['hist'][i], 'toggles': toggles, 'iterator': it, 'ext': bool(D['ext'][i]),
              'calls': [int(rng.integers(5, 22 if it == 'euler' else 12)) for _ in range(nc)],
              'use_cache': bool(rng.random() < 0.7), 'probe_continue': bool(rng.random() < 0.25)}
         if model == 'homog':
@@ -368,11 +403,19 @@ def _run_precip(case, R):
     model.addCouplingModel(sm)                 # first: updated on the capping step as well
     obs = precip.StepObserver(None, max_steps=None)
     model.addCouplingModel(obs)
-    mech0 = {'model': 'precipitation', 'system': cfg['system'], 'recordPSD': bool(cfg.get('recordPSD')), 'nphases': len(cfg['phases'])}
+    mech0 = {'model': 'precipitation', 'system': cfg['system'], 'recordPSD': bool(cfg.get('recordPSD')), 'nphases': len(cfg['phases']),
+             'history': case.get('history', 'none')}
     R.info.update({'system': cfg['system'], 'phases': cfg['phases'], 'recordPSD': bool(cfg.get('recordPSD')), 'iterator': cfg['iterator'],
-                   'save_points': []})
+                   'history': case.get('history', 'none'), 'save_points': []})
+    toggles = case.get('toggles') or [[None, None]] * len(case['calls'])
+
+    def toggle(action):
+        if action is not None:
+            model.setPSDrecording(action == 'on')
+            R.observe('psd_recording_switched_' + action)
     total_steps = 0
     for i, call in enumerate(case['calls']):
+        toggle(toggles[i][0])
         obs.steps, obs.max_steps, obs.capped = 0, int(call['steps']), False
         t_now = float(model.pData.time[model.pData.n])
         if call['mode'] == 'cap':
@@ -391,6 +434,7 @@ def _run_precip(case, R):
         total_steps += obs.steps
         R.observe('steps', obs.steps)
         R.observe('save_points_after_capped_call' if capped else 'save_points_after_completed_call')
+        toggle(toggles[i][1])
         nt = _check_precip_save_point(case, R, model, sm, i, mech0, scratch)
         R.info['save_points'].append({'call': i, 'steps': obs.steps, 'capped': capped, 't': float(model.pData.time[model.pData.n]),
                                       'density': model.pData.precipitateDensity[model.pData.n], 'bins': [int(p.bins) for p in model.PBM],
@@ -482,18 +526,29 @@ def _check_precip_save_point(case, R, model, sm, i, mech0, scratch):
                     except Exception:
                         R.observe('strength_load_needs_extension')
         # ---------------------------------------------------------------- recorded PSD files
-        if cfg.get('recordPSD'):
+        # every recorded PSD history that exists on the saved model: a population balance that is recording writes its file
+        # (compared bit for bit); one whose recording is switched off keeps its arrays but saveRecordedPSD documents that it
+        # "will do nothing" then - counted (recorded_psd_kept_but_not_written_while_disabled), nothing to compare
+        recording = [bool(pb._record) for pb in model.PBM]
+        kept = [pb._recordedPSD is not None for pb in model.PBM]
+        if any(kept):
             R.observe('psd_history_not_in_model_file')
-            mr = {'model': 'recorded_psd', 'system': cfg['system']}
+        if any(k and not r for k, r in zip(kept, recording)):
+            R.observe('recorded_psd_kept_but_not_written_while_disabled')
+        if any(recording):
+            mr = {'model': 'recorded_psd', 'system': cfg['system'], 'history': case.get('history', 'none')}
             try:
                 model.saveRecordedPSD(base + '_psd', compressed=bool((i + 1) % 2))
                 for p, ph in enumerate(model.phases):
-                    fresh.PBM[p].loadRecordedPSD(base + '_psd_' + str(ph) + '.npz')
+                    if recording[p]:
+                        fresh.PBM[p].loadRecordedPSD(base + '_psd_' + str(ph) + '.npz')
                 R.count('c20.load_no_exception')
             except Exception as e:
                 R.exception('c20.load_no_exception', e, dict(mr, op='save_load'))
             else:
                 for p, ph in enumerate(model.phases):
+                    if not recording[p]:
+                        continue
                     for attr in ('_recordedTime', '_recordedBins', '_recordedPSD'):
                         a, b = getattr(model.PBM[p], attr), getattr(fresh.PBM[p], attr)
                         R.check('c20.psd_record_file', _biteq(a, b), dict(mr, attr=attr), phase=str(ph), original=_describe(a),
@@ -589,11 +644,23 @@ def _run_diffusion(case, R):
     model = _build_diffusion(case, ttot)
     obs = precip.StepObserver(None, max_steps=None)
     model.addCouplingModel(obs)
-    mech0 = {'model': 'diffusion', 'kind': case['model'], 'record': bool(case['record'])}
-    m1 = dict(mech0, filename='with_extension' if case['ext'] else 'without_extension')
-    R.info.update({'model': case['model'], 'system': case['system'], 'record': case['record'], 'save_points': []})
-    x_init = None
+    mech0 = {'model': 'diffusion', 'kind': case['model'], 'record': bool(case['record']), 'history': case.get('history', 'none')}
+    R.info.update({'model': case['model'], 'system': case['system'], 'record': case['record'], 'history': case.get('history', 'none'),
+                   'save_points': []})
+    toggles = case.get('toggles') or [[None, None]] * len(case['calls'])
+
+    def toggle(action):
+        # the public recording switches; enableRecording starts a new history, disableRecording keeps what was recorded
+        if action == 'on':
+            model.enableRecording()
+        elif action == 'off':
+            model.disableRecording()
+        elif action == 'remove':
+            model.removeRecordedData()
+        if action is not None:
+            R.observe('recording_switched_' + action)
     for i, nsteps in enumerate(case['calls']):
+        toggle(toggles[i][0])
         obs.steps, obs.max_steps, obs.capped = 0, 4 * int(nsteps) + 10, False
         try:
             model.solve(dt0 * nsteps, solverType=it)
@@ -604,8 +671,10 @@ def _run_diffusion(case, R):
             R.info['solve_exception'] = repr(e)[:200]
             break
         R.observe('steps', obs.steps)
-        if x_init is None:
-            x_init = np.array(model._recordedX[0], copy=True) if model._recordedX is not None else None
+        toggle(toggles[i][1])
+        # structural state of the recording options at the save point (part of the failing mechanism)
+        mech0 = dict(mech0, flag=bool(model._record), arrays='present' if model._recordedX is not None else 'none')
+        m1 = dict(mech0, filename='with_extension' if case['ext'] else 'without_extension')
         base = os.path.join(scratch, 'c20_%d_%d_%d_diff' % (os.getpid(), case['idx'], i))
         fn = base + ('.npz' if case['ext'] else '')
         try:
@@ -637,7 +706,7 @@ def _run_diffusion(case, R):
                     R.check('c20.diff_state', _biteq(a, b), dict(mech0, attr=attr), original=_describe(a), loaded=_describe(b),
                             diff=_first_diff(a, b) if b is not None else None)
             finite = bool(np.all(np.isfinite(model.x)))
-            ref = x_init if x_init is not None else probe.x
+            ref = probe.x                      # initial profile after setup (probe object of the same configuration)
             changed = finite and float(np.max(np.abs(np.asarray(model.x) - np.asarray(ref)))) > 1e-9
             nt = changed and obs.steps >= 3
             R.info['save_points'].append({'call': i, 'steps': obs.steps, 't': float(model.t), 'nontrivial': nt,
